@@ -268,7 +268,11 @@ pub struct Driver<'a> {
 
 fn write_journal(cfg: &ShardCfg, kind: &str, case: &Value, stream: u64, index: u64) {
     if let Some(p) = &cfg.journal {
-        let _ = std::fs::write(p, serde_json::to_vec(&json!({"kind": kind, "case": case, "stream": stream, "index": index})).unwrap());
+        // atomic replace: the master may read the journal at any moment
+        let tmp = p.with_extension("jtmp");
+        if std::fs::write(&tmp, serde_json::to_vec(&json!({"kind": kind, "case": case, "stream": stream, "index": index})).unwrap()).is_ok() {
+            let _ = std::fs::rename(&tmp, p);
+        }
     }
 }
 
@@ -396,7 +400,7 @@ impl<'a> Driver<'a> {
                 }
             }
             write_journal(&cfg, kind, &case_json, call_seq, idx);
-            if idx % 256 == 255 {
+            if idx % 64 == 63 {
                 this.borrow().dump_partial();
             }
             {
@@ -633,32 +637,25 @@ pub fn run_master(prop: &dyn Prop, tier: Tier, seed: u64) -> i32 {
     let mut known_lines: Vec<String> = vec![];
     let mut witness_notes: Vec<Value> = vec![];
 
-    // 1. witnesses of known findings + stored regression replays
-    for k in &known {
-        if let Some(w) = &k.witness {
-            let wp = Path::new(&verif_dir()).join(w);
-            let out = std::process::Command::new(&exe).args(["replay", id, wp.to_str().unwrap(), "--raw"]).output();
-            let (code, stdout) = match out {
-                Ok(o) => (o.status.code().unwrap_or(-1), String::from_utf8_lossy(&o.stdout).to_string()),
-                Err(e) => (-2, e.to_string()),
-            };
-            // replay --raw prints "RESULT pass|discard|fail <signature>"; a crash gives no RESULT line
-            let failed_sig = stdout.lines().find_map(|l| l.strip_prefix("RESULT fail ").map(|s| s.trim().to_string()));
-            let crashed = !stdout.lines().any(|l| l.starts_with("RESULT "));
-            let still_fails = failed_sig.is_some() || crashed;
-            match (k.status.as_str(), still_fails) {
-                ("open", true) => known_lines.push(format!("KNOWN-FINDING: property={} {} -- {}", id, k.signature, k.what)),
-                ("open", false) => witness_notes.push(json!({"signature": k.signature, "status": "no-longer-reproduces"})),
-                ("fixed", true) => {
-                    violations.push((format!("regression of fixed finding {}", k.signature), wp.clone()));
-                }
-                ("fixed", false) => witness_notes.push(json!({"signature": k.signature, "status": "fixed-still-passes"})),
-                _ => {}
-            }
-            let _ = code;
-        } else if k.status == "open" {
-            known_lines.push(format!("KNOWN-FINDING: property={} {} -- {}", id, k.signature, k.what));
+    // 1. witnesses of known findings + stored regression replays (each in a child process with a
+    //    timeout, up to 8 at a time; a witness that hangs or crashes "still fails")
+    let replay_timeout = prop.case_timeout_s(tier) * 2 + 30;
+    let with_witness: Vec<&KnownFinding> = known.iter().filter(|k| k.witness.is_some()).collect();
+    let wpaths: Vec<PathBuf> = with_witness.iter().map(|k| Path::new(&verif_dir()).join(k.witness.as_ref().unwrap())).collect();
+    let wouts = replay_many(&exe, id, &wpaths, replay_timeout);
+    for ((k, wp), stdout) in with_witness.iter().zip(wpaths.iter()).zip(wouts.iter()) {
+        // replay --raw prints "RESULT pass|discard|fail <signature>"; a crash or hang gives no RESULT line
+        let still_fails = !stdout.lines().any(|l| l.starts_with("RESULT pass") || l.starts_with("RESULT discard"));
+        match (k.status.as_str(), still_fails) {
+            ("open", true) => known_lines.push(format!("KNOWN-FINDING: property={} {} -- {}", id, k.signature, k.what)),
+            ("open", false) => witness_notes.push(json!({"signature": k.signature, "status": "no-longer-reproduces"})),
+            ("fixed", true) => violations.push((format!("regression of fixed finding {}", k.signature), wp.clone())),
+            ("fixed", false) => witness_notes.push(json!({"signature": k.signature, "status": "fixed-still-passes"})),
+            _ => {}
         }
+    }
+    for k in known.iter().filter(|k| k.witness.is_none() && k.status == "open") {
+        known_lines.push(format!("KNOWN-FINDING: property={} {} -- {}", id, k.signature, k.what));
     }
     // regression replays (saved mutant / fixed-defect cases): /verif/regress/<id>/*.json must pass
     let rdir = Path::new(&verif_dir()).join("regress").join(id);
@@ -666,13 +663,12 @@ pub fn run_master(prop: &dyn Prop, tier: Tier, seed: u64) -> i32 {
     if let Ok(rd) = std::fs::read_dir(&rdir) {
         let mut files: Vec<PathBuf> = rd.filter_map(|e| e.ok()).map(|e| e.path()).filter(|p| p.extension().map(|x| x == "json").unwrap_or(false)).collect();
         files.sort();
-        for f in files {
-            regress_run += 1;
-            let out = std::process::Command::new(&exe).args(["replay", id, f.to_str().unwrap(), "--raw"]).output();
-            let stdout = out.map(|o| String::from_utf8_lossy(&o.stdout).to_string()).unwrap_or_default();
-            let failed = stdout.lines().any(|l| l.starts_with("RESULT fail ")) || !stdout.lines().any(|l| l.starts_with("RESULT "));
-            if failed {
-                let sig = stdout.lines().find_map(|l| l.strip_prefix("RESULT fail ").map(|s| s.trim().to_string())).unwrap_or("crash".into());
+        regress_run = files.len();
+        let outs = replay_many(&exe, id, &files, replay_timeout);
+        for (f, stdout) in files.iter().zip(outs.iter()) {
+            let passed = stdout.lines().any(|l| l.starts_with("RESULT pass") || l.starts_with("RESULT discard"));
+            if !passed {
+                let sig = stdout.lines().find_map(|l| l.strip_prefix("RESULT fail ").map(|s| s.trim().to_string())).unwrap_or_else(|| if stdout.contains("HANG") { "hang".into() } else { "crash".into() });
                 if !known.iter().any(|k| k.status == "open" && k.signature == sig) {
                     violations.push((format!("regression replay fails: {sig}"), f.clone()));
                 }
@@ -918,6 +914,57 @@ pub fn run_master(prop: &dyn Prop, tier: Tier, seed: u64) -> i32 {
         t0.elapsed().as_secs_f64()
     );
     exit_code
+}
+
+/// Replay several files (`vcheck replay <id> <file> --raw`) in child processes, at most 8 at a time,
+/// each killed after `timeout_s`. Returns each child's stdout ("HANG" appended when it was killed).
+fn replay_many(exe: &Path, id: &str, files: &[PathBuf], timeout_s: u64) -> Vec<String> {
+    let mut outs: Vec<String> = vec![String::new(); files.len()];
+    let dir = Path::new(&verif_dir()).join("scratch").join(format!("replays-{}-{}", id, std::process::id()));
+    let _ = std::fs::create_dir_all(&dir);
+    let mut running: Vec<(usize, std::process::Child, Instant, PathBuf)> = vec![];
+    let mut next = 0usize;
+    while next < files.len() || !running.is_empty() {
+        while next < files.len() && running.len() < 8 {
+            let outp = dir.join(format!("o{next}.txt"));
+            if let Ok(c) = std::process::Command::new(exe)
+                .args(["replay", id, files[next].to_str().unwrap(), "--raw"])
+                .stdout(std::fs::File::create(&outp).unwrap())
+                .stderr(std::process::Stdio::null())
+                .spawn()
+            {
+                running.push((next, c, Instant::now(), outp));
+            }
+            next += 1;
+        }
+        let mut i = 0;
+        while i < running.len() {
+            let done = match running[i].1.try_wait() {
+                Ok(Some(_)) => Some(false),
+                Ok(None) if running[i].2.elapsed().as_secs() > timeout_s => {
+                    let _ = running[i].1.kill();
+                    let _ = running[i].1.wait();
+                    Some(true)
+                }
+                Ok(None) => None,
+                Err(_) => Some(false),
+            };
+            if let Some(hung) = done {
+                let (idx, _, _, outp) = running.remove(i);
+                let mut s = std::fs::read_to_string(&outp).unwrap_or_default();
+                if hung {
+                    s.push_str("\nHANG\n");
+                }
+                outs[idx] = s;
+                let _ = std::fs::remove_file(&outp);
+            } else {
+                i += 1;
+            }
+        }
+        std::thread::sleep(std::time::Duration::from_millis(20));
+    }
+    let _ = std::fs::remove_dir_all(&dir);
+    outs
 }
 
 /// Re-run a saved case alone in a child process. Some("hang") when it exceeds the timeout,
